@@ -182,7 +182,7 @@ func c34(c *an.Check) {
 			continue
 		}
 		uses := false
-		for _, b := range fn.Blocks {
+		for _, b := range an.ScanBlocks(fn) {
 			for _, ins := range b.Instrs {
 				if call, ok := ins.(*ssa.Call); ok && call.Call.IsInvoke() && hmsKinds[call.Call.Method.Name()] == "protocol" && isHMSIface(call.Call.Value.Type()) {
 					uses = true
@@ -244,7 +244,7 @@ func checkHMSHandler(c *an.Check, h *ssa.Function, pkg string, kinds []string) {
 			cfgTerms[kind][strings.TrimSuffix(strings.TrimPrefix(t, "elem("), ")")] = true
 		}
 	}
-	for _, b := range h.Blocks {
+	for _, b := range an.ScanBlocks(h) {
 		for _, ins := range b.Instrs {
 			switch x := ins.(type) {
 			case *ssa.BinOp:
@@ -313,7 +313,7 @@ func checkHMSHandler(c *an.Check, h *ssa.Function, pkg string, kinds []string) {
 	}
 	// provenance of the protocol filter's configuration operand: when it comes from a generated config message it must be
 	// that message's listen-protocol field (protocol_id / protocol_ids), not some other field (e.g. a *target* protocol).
-	for _, b := range h.Blocks {
+	for _, b := range an.ScanBlocks(h) {
 		for _, ins := range b.Instrs {
 			var cfg ssa.Value
 			switch x := ins.(type) {
